@@ -43,7 +43,12 @@ def _generate_cb(gid):
 def _cache_get_cb(cid, key):
     try:
         cache = _CACHES[cid]
-        out = cache._get(key.decode("utf-8", "surrogateescape"))
+        try:
+            out = cache._get(key.decode("utf-8", "surrogateescape"))
+        except CacheBroken as err:
+            # PyArrayCache::get catches only Python errors; the std::runtime_error of a dead weak reference propagates
+            _pending[0] = err
+            return 1
         if out is None:
             return None
         _KEEP[out._h] = out
@@ -143,6 +148,10 @@ def reset():
 
 
 ###################################################################### generators and caches
+
+class CacheBroken(RuntimeError):
+    """std::runtime_error thrown by PyArrayCache::mutablemapping() when the weak reference is dead."""
+
 
 class ArrayGenerator(object):
     def __init__(self, callable, args=(), kwargs=None, form=None, length=None):
@@ -267,12 +276,13 @@ class ArrayCache(object):
             return None
         out = self._ref()
         if out is None:
-            raise RuntimeError("PyArrayCache has lost its weak reference to mapping")
+            raise CacheBroken("PyArrayCache has lost its weak reference to mapping")
         return out
 
     def _get(self, key):
+        m = self.mutablemapping        # raises when the weak reference is dead (not swallowed by PyArrayCache::get)
         try:
-            return self.mutablemapping[key]
+            return m[key]
         except Exception:
             return None
 
